@@ -271,6 +271,52 @@ Theorem C19_anon_capacity_tight :
   end.
 Proof. vm_compute. split; [reflexivity|]. split; [discriminate|reflexivity]. Qed.
 
+(* AT AND ABOVE the capacity, for every table level (ECUs; APIDs of one ECU; CTIDs of one ECU/APID) and every
+   population: nothing but injectivity is lost, and it is lost in exactly one way.
+   - [C19_anon_no_panic], [C19_anon_is_table_lookup], [C19_anon_keeps_times] above have no capacity hypothesis:
+     no panic, every message forwarded once in order, equal ids -> equal pseudonyms, all non-id fields intact.
+   - entry number n >= 1000 of a table gets the pseudonym of entry n / 10 ("X" + the first three digits of n:
+     `{:03}` is a minimum width and DltChar4::from_str keeps four bytes; the `unwrap_or_else(.. b"X99A")`
+     fallback of the source is unreachable because format! yields ASCII), and two entries share a pseudonym
+     exactly when their numbers have the same leading three digits. *)
+Theorem C19_pseudonym_of_large_entry letter n :
+  1000 <= n -> n < ten20 -> pseudo letter n = pseudo letter (n / 10).
+Proof. exact (pseudo_div10 letter n). Qed.
+
+Theorem C19_anon_collisions_as_stated ms st' outs :
+  anon_run true anon_init ms = Ok (st', outs) ->
+  (blen (a_ecus st') < ten20 -> collisions_as_stated (a_ecus st')) /\
+  (forall E, blen (apid_tbl st' E) < ten20 -> collisions_as_stated (apid_tbl st' E)) /\
+  (forall E A, blen (ctid_tbl st' E A) < ten20 -> collisions_as_stated (ctid_tbl st' E A)).
+Proof. exact (anon_tables_collisions true ms st' outs). Qed.
+
+Theorem C19_collisions_meaning t :
+  collisions_as_stated t <->
+  forall i j k1 p1 k2 p2, nth_error t i = Some (k1, p1) -> nth_error t j = Some (k2, p2) ->
+    (p1 = p2 <-> lead3 (N.of_nat i + 1) = lead3 (N.of_nat j + 1)).
+Proof. reflexivity. Qed.
+
+(* [lead3 n] = n below 1000, else the number made of the three leading digits *)
+Example C19_lead3_examples :
+  map lead3 [1; 999; 1000; 1009; 1010; 1234; 9999; 10000; 123456; 18446744073709551615] = [1; 999; 100; 100; 101; 123; 999; 100; 123; 184].
+Proof. vm_compute. reflexivity. Qed.
+
+(* non-vacuity above the capacity, at the CTID level with a mixture: 1005 context ids under one application id,
+   3 under another one of the same ECU, arriving in reverse order: all 1008 messages come out, entry 1000..1005
+   of the first table repeat the pseudonym of entry 100, the second table is unaffected *)
+Example C19_anon_above_capacity_nonvacuous :
+  let ms := segs_stream 0 [(1005, (7, 1), (21, 1), (5000, 1005), true); (3, (7, 1), (22, 1), (5000, 3), false)] in
+  match anon_run true anon_init ms with
+  | Ok (st', outs) =>
+      length outs = 1008%nat /\
+      blen (ctid_tbl st' (pseudo letter_E 1) 21) = 1005 /\ blen (ctid_tbl st' (pseudo letter_E 1) 22) = 3 /\
+      option_map (fun m => option_map e_ctid (m_ext m)) (nth_error outs 999) = Some (Some (pseudo letter_C 100)) /\
+      option_map (fun m => option_map e_ctid (m_ext m)) (nth_error outs 99) = Some (Some (pseudo letter_C 100)) /\
+      option_map (fun m => option_map e_ctid (m_ext m)) (nth_error outs 1007) = Some (Some (pseudo letter_C 3))
+  | _ => False
+  end.
+Proof. vm_compute. repeat split. Qed.
+
 (* all times (and index, lifecycle, standard header, text, message type, noar, presence of the extended header)
    are untouched; hence also the control-request / control-response / verbose classification and the
    timestamp-presence flag the lifecycle detection looks at *)
@@ -400,3 +446,8 @@ Print Assumptions C19_real_decoders_conservative.
 Print Assumptions C19_checked_decoders_are_instances.
 Print Assumptions C19_decoders_nonvacuous.
 Print Assumptions C19_real_decoders_keep_all_but_text.
+Print Assumptions C19_pseudonym_of_large_entry.
+Print Assumptions C19_anon_collisions_as_stated.
+Print Assumptions C19_collisions_meaning.
+Print Assumptions C19_lead3_examples.
+Print Assumptions C19_anon_above_capacity_nonvacuous.
